@@ -175,3 +175,120 @@ fn k_mtrl_sampler() {
     }
     kani::cover!(true, "reachable");
 }
+
+//@use_common
+
+fn nmt_half(v: f32) -> [u8; 2] { half::f16::from_f32(v).to_bits().to_le_bytes() }
+fn nmt_val(row: usize, k: usize, per_row: usize) -> f32 { (row * per_row + k) as f32 / 4.0 }
+struct NmtSpec { dawntrail: bool, textures: Vec<&'static str>, keys: Vec<(u32, u32)>, constants: Vec<(u32, Vec<f32>)>, samplers: Vec<(u32, u32, u8)>, dye: bool }
+/// a material packed by hand in the order the format stores it
+fn nmt_material(sp: &NmtSpec) -> Vec<u8> {
+    let mut strings: Vec<u8> = vec![]; let mut tex_off = vec![];
+    for t in sp.textures.iter() { tex_off.push(strings.len() as u16); strings.extend_from_slice(t.as_bytes()); strings.push(0); }
+    let uv_off = strings.len() as u16; strings.extend_from_slice(b"uv0\0");
+    let cs_off = strings.len() as u16; strings.extend_from_slice(b"colorset1\0");
+    let shpk_off = strings.len() as u16; strings.extend_from_slice(b"character.shpk\0");
+    while strings.len() % 4 != 0 { strings.push(0); }
+    let mut o: Vec<u8> = vec![];
+    o.extend_from_slice(&0x0103_0000u32.to_le_bytes()); o.extend_from_slice(&0u16.to_le_bytes()); o.extend_from_slice(&0u16.to_le_bytes());
+    o.extend_from_slice(&(strings.len() as u16).to_le_bytes()); o.extend_from_slice(&shpk_off.to_le_bytes());
+    o.push(sp.textures.len() as u8); o.push(1); o.push(1); o.push(4);
+    for t in tex_off.iter() { o.extend_from_slice(&t.to_le_bytes()); o.extend_from_slice(&0u16.to_le_bytes()); }
+    o.extend_from_slice(&uv_off.to_le_bytes()); o.extend_from_slice(&0u16.to_le_bytes());
+    o.extend_from_slice(&cs_off.to_le_bytes()); o.extend_from_slice(&1u16.to_le_bytes());
+    o.extend_from_slice(&strings);
+    let flags: u32 = 0x4 | if sp.dye { 0x8 } else { 0 } | if sp.dawntrail { 0x53 << 4 } else { 0 };
+    o.extend_from_slice(&flags.to_le_bytes());
+    let (rows, per_row) = if sp.dawntrail { (32usize, 32usize) } else { (16, 16) };
+    for r in 0..rows { for k in 0..per_row {
+        // the integer fields of a row (tile set / shader index / sphere index) hold r*7+k, every other slot a half float
+        let is_int = if sp.dawntrail { k == 24 || k == 25 || k == 27 } else { k == 11 };
+        if is_int { o.extend_from_slice(&((r * 7 + k) as u16).to_le_bytes()); } else { o.extend_from_slice(&nmt_half(nmt_val(r, k, per_row))); }
+    } }
+    if sp.dye { for r in 0..rows { if sp.dawntrail { o.extend_from_slice(&(((r as u32 * 67 + 5) & 0x7FF) << 16 | ((r as u32 % 4) << 27) | ((r as u32 * 0x1A5 + 1) & 0xFFF)).to_le_bytes()); } else { o.extend_from_slice(&((((r as u16 * 37 + 3) & 0x7FF) << 5) | (r as u16 % 32)).to_le_bytes()); } } }
+    let values: Vec<f32> = sp.constants.iter().flat_map(|c| c.1.iter().cloned()).collect();
+    o.extend_from_slice(&((values.len() * 4) as u16).to_le_bytes()); o.extend_from_slice(&(sp.keys.len() as u16).to_le_bytes());
+    o.extend_from_slice(&(sp.constants.len() as u16).to_le_bytes()); o.extend_from_slice(&(sp.samplers.len() as u16).to_le_bytes()); o.extend_from_slice(&0x11u32.to_le_bytes());
+    for (c, v) in sp.keys.iter() { o.extend_from_slice(&c.to_le_bytes()); o.extend_from_slice(&v.to_le_bytes()); }
+    let mut at = 0u16;
+    for (id, vals) in sp.constants.iter() { o.extend_from_slice(&id.to_le_bytes()); o.extend_from_slice(&at.to_le_bytes()); o.extend_from_slice(&((vals.len() * 4) as u16).to_le_bytes()); at += (vals.len() * 4) as u16; }
+    for (usage, fl, ti) in sp.samplers.iter() { o.extend_from_slice(&usage.to_le_bytes()); o.extend_from_slice(&fl.to_le_bytes()); o.push(*ti); o.extend_from_slice(&[0u8; 3]); }
+    for v in values.iter() { o.extend_from_slice(&v.to_le_bytes()); }
+    o
+}
+fn nmt_specs() -> Vec<NmtSpec> {
+    vec![
+        NmtSpec { dawntrail: false, textures: vec![], keys: vec![], constants: vec![], samplers: vec![], dye: false },
+        NmtSpec { dawntrail: false, textures: vec!["chara/equipment/e0001/texture/v01_c0101e0001_top_n.tex", "chara/common/texture/-tile_d.tex"], keys: vec![(0xB616DC5A, 0x5CC605B5)], constants: vec![(0x29AC0223, vec![0.5]), (0x575ABFB2, vec![1.0, 2.0, 3.0, 4.0])], samplers: vec![(0x0C5EC1F1, 0x000F8340, 0), (0x115306BE, 0x2, 1)], dye: true },
+        NmtSpec { dawntrail: true, textures: vec!["bg/ex5/01_xkt_x6/common/texture/x6a0_b0_flor1_d.tex"], keys: vec![(1, 2), (3, 4), (0xFFFFFFFF, 0)], constants: vec![(7, vec![1.5, -2.25]), (8, vec![0.0, 0.25, 1e9])], samplers: vec![(0x8A4E82B6, 7, 0)], dye: true },
+        NmtSpec { dawntrail: true, textures: vec!["a.tex", "b.tex", "c.tex"], keys: vec![], constants: vec![(9, vec![3.0])], samplers: vec![], dye: false },
+    ]
+}
+
+//@unit props=C14 label=B tier=quick native=1 fn=mtrl::Material::from_existing bound="by execution: 4 hand-packed materials (legacy 16-row and Dawntrail 32-row colour tables with a distinct exactly-representable half in every slot, with and without dye tables, 0..3 textures, 0..3 keys, constants of 1..4 floats, 0..2 samplers)"
+//@desc the parsed material returns the shader package name, the texture paths in order, the keys, every constant with its own floats and count, the samplers, and every colour-table and dye-table row holds the values stored at its own position (row r, slot k)
+#[test]
+fn native_mtrl_parse() {
+    let mut cases = 0u64;
+    for sp in nmt_specs().iter() {
+        let m = Material::from_existing(&nmt_material(sp)).expect("a well-formed material parses");
+        assert_eq!(m.shader_package_name, "character.shpk");
+        assert_eq!(m.texture_paths, sp.textures.iter().map(|s| s.to_string()).collect::<Vec<_>>(), "texture paths in order");
+        assert_eq!(m.shader_keys.iter().map(|k| (k.category, k.value)).collect::<Vec<_>>(), sp.keys, "shader keys");
+        assert_eq!(m.constants.len(), sp.constants.len());
+        for (c, (id, vals)) in m.constants.iter().zip(sp.constants.iter()) {
+            assert_eq!((c.id, c.num_values as usize), (*id, vals.len()), "constant id and count");
+            assert_eq!(&c.values[..vals.len()], &vals[..], "constant {id:#x} holds its own floats");
+        }
+        assert_eq!(m.samplers.iter().map(|s| (s.flags, s.texture_index)).collect::<Vec<_>>(), sp.samplers.iter().map(|s| (s.1, s.2)).collect::<Vec<_>>(), "samplers");
+        match (&m.color_table, sp.dawntrail) {
+            (Some(ColorTable::LegacyColorTable(t)), false) => {
+                assert_eq!(t.rows.len(), 16);
+                for (r, row) in t.rows.iter().enumerate() {
+                    let v = |k: usize| nmt_val(r, k, 16);
+                    assert_eq!((row.diffuse_color, row.specular_strength, row.specular_color, row.gloss_strength, row.emissive_color), ([v(0), v(1), v(2)], v(3), [v(4), v(5), v(6)], v(7), [v(8), v(9), v(10)]), "legacy row {r}: colours");
+                    assert_eq!((row.tile_set, row.material_repeat, row.material_skew), ((r * 7 + 11) as u16, [v(12), v(13)], [v(14), v(15)]), "legacy row {r}: tile set, repeat, skew");
+                }
+            }
+            (Some(ColorTable::DawntrailColorTable(t)), true) => {
+                assert_eq!(t.rows.len(), 32);
+                for (r, row) in t.rows.iter().enumerate() {
+                    let v = |k: usize| nmt_val(r, k, 32);
+                    assert_eq!((row.diffuse_color, row.unknown1, row.specular_color, row.unknown2, row.emissive_color, row.unknown3), ([v(0), v(1), v(2)], v(3), [v(4), v(5), v(6)], v(7), [v(8), v(9), v(10)], v(11)), "dawntrail row {r}: colours");
+                    assert_eq!((row.sheen_rate, row.sheen_tint, row.sheen_aperture, row.unknown4, row.roughness, row.unknown5, row.metalness, row.anisotropy, row.unknown6, row.sphere_mask, row.unknown7, row.unknown8),
+                               (v(12), v(13), v(14), v(15), v(16), v(17), v(18), v(19), v(20), v(21), v(22), v(23)), "dawntrail row {r}: scalars");
+                    assert_eq!((row.shader_index, row.tile_set, row.tile_alpha, row.sphere_index, row.material_repeat, row.material_skew), ((r * 7 + 24) as u16, (r * 7 + 25) as u16, v(26), (r * 7 + 27) as u16, [v(28), v(29)], [v(30), v(31)]), "dawntrail row {r}: indices, repeat, skew");
+                }
+            }
+            _ => panic!("colour table kind does not match the table flags"),
+        }
+        match (&m.color_dye_table, sp.dye, sp.dawntrail) {
+            (None, false, _) => {}
+            (Some(ColorDyeTable::LegacyColorDyeTable(t)), true, false) => { for (r, row) in t.rows.iter().enumerate() { let d = (((r as u16 * 37 + 3) & 0x7FF) << 5) | (r as u16 % 32);
+                assert_eq!((row.template, row.diffuse, row.specular, row.emissive, row.gloss, row.specular_strength), (d >> 5, d & 1 != 0, d & 2 != 0, d & 4 != 0, d & 8 != 0, d & 16 != 0), "legacy dye row {r}"); } }
+            (Some(ColorDyeTable::DawntrailColorDyeTable(t)), true, true) => { for (r, row) in t.rows.iter().enumerate() {
+                assert_eq!((row.template as u32, row.channel as u32, row.diffuse, row.sphere_map_mask), ((r as u32 * 67 + 5) & 0x7FF, r as u32 % 4, (r as u32 * 0x1A5 + 1) & 1 != 0, (r as u32 * 0x1A5 + 1) & 0x800 != 0), "dawntrail dye row {r}"); } }
+            _ => panic!("dye table kind does not match the table flags"),
+        }
+        cases += 1;
+    }
+    println!("NATIVE native_mtrl_parse cases={cases}");
+}
+
+//@unit props=C18 label=B tier=quick native=1 fn=mtrl::Material::from_existing bound="by execution: the legacy and the Dawntrail material of native_mtrl_parse with all tables populated: every truncation; 7 single-byte corruptions per byte of everything outside the colour table rows, and of every 16th byte inside them"
+//@desc damaged materials (truncated anywhere, any count, offset, size, flag, magic or string byte damaged) yield None or a value, never a panic
+#[test]
+fn native_mtrl_damaged_nopanic() {
+    let f = |b: &[u8]| { let _ = Material::from_existing(b); };
+    let mut s = NativeSites::new();
+    let specs = nmt_specs();
+    for sp in [&specs[1], &specs[2]] {
+        let v = nmt_material(sp);
+        let head = 16 + sp.textures.len() * 4 + 8 + 200;
+        let table = if sp.dawntrail { 2048 } else { 512 };
+        s.sweep(&v, head.min(v.len()), 16, &f);
+        let mut w = v.clone();
+        for i in (head + table).min(v.len())..v.len() { let o = v[i]; for c in [0u8, 1, 0x7F, 0x80, 0xFF, o.wrapping_add(1), o.wrapping_sub(1)] { if c != o { w[i] = c; s.run(&f, &w, &format!("byte {i} changed from {o:#04x} to {c:#04x}")); } } w[i] = o; }
+    }
+    s.finish("native_mtrl_damaged_nopanic");
+}
